@@ -814,6 +814,31 @@ func runC11(t *testing.T, c Case) (res Result) {
 		}
 		return false
 	}
+	// orderClass names an index-order violation. The comparator of the engine's index sort reads the live
+	// records, so a write of the sort attribute (expiry slide, patch-claim, new record) that runs while an index
+	// walk's lazy build or re-sort is in progress leaves the index mis-sorted: that history is a recorded finding;
+	// a mis-ordered reply without such a write is not.
+	orderClass := func(o *c11op) string {
+		for _, w := range ops {
+			writes := (w.kind == "slide" && w.acked) || (w.kind == "add" && w.acked)
+			if w.kind == "patchexp" {
+				for _, g := range w.got {
+					if g.status == hydrapb.PatchResult_PATCHED {
+						writes = true
+					}
+				}
+			}
+			if !writes || w == o {
+				continue
+			}
+			for _, b := range ops {
+				if b != w && isClaim(b) && b.call <= o.call && w.call < b.ret && b.call < w.ret {
+					return "not_in_index_order(sort_attribute_written_while_the_index_was_built_or_sorted)"
+				}
+			}
+		}
+		return "not_in_index_order"
+	}
 	claimedSomething := false
 	// ---- per reply
 	for _, o := range ops {
@@ -852,7 +877,7 @@ func runC11(t *testing.T, c Case) (res Result) {
 					return fail(violation("claimed_record_not_expired", "ShiftExpired returned %s whose expiry (%d ns after the start) is unset or not before the end of the request (%d)", g.key, g.exp-startT.UnixNano(), o.t1.Sub(startT)))
 				}
 				if i > 0 && g.exp < o.got[i-1].exp && !touched(g.key, o) && !touched(o.got[i-1].key, o) {
-					return fail(violation("not_in_index_order", "ShiftExpired returned %s (expiry %d) after %s (expiry %d)", g.key, g.exp, o.got[i-1].key, o.got[i-1].exp))
+					return fail(violation(orderClass(o), "ShiftExpired returned %s (expiry %d) after %s (expiry %d)", g.key, g.exp, o.got[i-1].key, o.got[i-1].exp))
 				}
 			case "shiftmatch":
 				fs, fg := o.op.A[4], o.op.A[5]
@@ -881,7 +906,7 @@ func runC11(t *testing.T, c Case) (res Result) {
 						a, b = p.exp, g.exp
 					}
 					if (o.op.A[3] == 0 && a > b) || (o.op.A[3] == 1 && a < b) {
-						return fail(violation("not_in_index_order", "ShiftMatching(index=%d desc=%d) returned %s after %s", o.op.A[2], o.op.A[3], g.key, p.key))
+						return fail(violation(orderClass(o), "ShiftMatching(index=%d desc=%d) returned %s after %s", o.op.A[2], o.op.A[3], g.key, p.key))
 					}
 				}
 			case "patchexp":
